@@ -37,6 +37,28 @@ Proof.
   all: destruct Hin as [<-|[<-|[<-|[]]]]; eval_prefix.
   all: unfold slen, num0; try rewrite (in_alpha_split 22 EncHash t2); rewrite ?in_alpha_fi.
   all: crunch. all: try reflexivity. all: try digits_alpha.
-  Show.
-Abort.
+  all: arr_fix; apply finish_class; intros key Hkey; apply be64_len23; eapply key_bcrypt_len; eauto.
+Qed.
+
+Theorem bcrypt_classified_ : forall h pw, class_of (check_bcrypt L kdf h pw) = spec_bcrypt L kdf h pw.
+Proof.
+  intros h pw. unfold spec_bcrypt, recog_bcrypt.
+  destruct (has_prefix p_bcrypt_2b h) eqn:H2b.
+  { apply has_prefix_spec in H2b. destruct H2b as [body ->].
+    apply (bcrypt_body p_bcrypt_2b 4 body pw (parse_bcrypt_2b body)). cbn; auto. }
+  destruct (has_prefix p_bcrypt_2a h) eqn:H2a.
+  { apply has_prefix_spec in H2a. destruct H2a as [body ->].
+    apply (bcrypt_body p_bcrypt_2a 4 body pw (parse_bcrypt_2a body)). cbn; auto. }
+  destruct (has_prefix p_bcrypt_2 h) eqn:H2.
+  { apply has_prefix_spec in H2. destruct H2 as [body ->].
+    apply (bcrypt_body p_bcrypt_2 3 body pw (parse_bcrypt_2 body)). cbn; auto. }
+  unfold check_bcrypt.
+  eapply foreign_prefix with (id := 17%nat); try exact ti_bcrypt; try reflexivity.
+  intros q [<-|[<-|[<-|[]]]]; assumption.
+Qed.
 End B.
+
+Theorem bcrypt_classified : forall L kdf h pw,
+  (forall bs ns k, kdf T_bcrypt bs ns = Some k -> length k = 23%nat) ->
+  class_of (check_bcrypt L kdf h pw) = spec_bcrypt L kdf h pw.
+Proof. intros L kdf h pw Hk. apply bcrypt_classified_. exact Hk. Qed.
